@@ -136,6 +136,28 @@ def _api():
     def f_user_list_field(b, x):
         return plain(x.table.sizes)
 
+    def bedgraph_gapless_nan(b, table, fmt):
+        # a bedGraph table without gaps between its rows, covering the whole chromosome, with a nan among the values
+        n = call(len, table)
+        if raised(n) or n == 0:
+            return None
+        import bionumpy.datatypes as dt
+        starts = np.arange(n) * 10
+        vals = np.array([1.5 + i for i in range(n)], dtype=float)
+        vals[n // 2] = np.nan
+        return dt.BedGraph(["chr1"] * n, starts, starts + 10, vals)
+
+    def f_rla_from_bedgraph(b, x):
+        from bionumpy.arithmetics.intervals import GenomicRunLengthArray
+        return np.asarray(GenomicRunLengthArray.from_bedgraph(x, 10 * len(x)))
+
+    def f_geometry_get_track(b, x):
+        from bionumpy.genomic_data.geometry import Geometry
+        return np.asarray(Geometry({"chr1": 10 * len(x)}).get_track(x).to_dict()["chr1"])
+
+    def f_genome_get_track(b, x):
+        return b.Genome.from_dict({"chr1": 10 * len(x)}).get_track(x).get_data()
+
     def genotype_rows_matrix(b, table, fmt):
         # the same rows as a C-contiguous 2-D character matrix (not a ragged array): ravel() of it is a view
         n = call(len, table)
@@ -419,6 +441,9 @@ def _api():
             ("count_overlap_with_empty", intervals, f_count_overlap_empty), ("count_overlap_empty_first", intervals, f_count_overlap_empty_first),
             ("intersect_with_empty", intervals, f_intersect_empty), ("subtract_empty", intervals, f_subtract_empty),
             ("user_format_list_field_access", user_list_table, f_user_list_field),
+            ("run_length_array_from_bedgraph_nan", bedgraph_gapless_nan, f_rla_from_bedgraph),
+            ("geometry_get_track_nan", bedgraph_gapless_nan, f_geometry_get_track),
+            ("genome_get_track_nan", bedgraph_gapless_nan, f_genome_get_track),
             ("sort_intervals", intervals, f_sort), ("merge_intervals", intervals, f_merge),
             ("get_boolean_mask", intervals, f_mask), ("get_pileup", intervals, f_pileup),
             ("get_reverse_complement", dna, f_revcomp), ("get_kmers", dna, f_kmers),
